@@ -2418,6 +2418,9 @@ class Transport(threading.Thread, ClosingContextManager):
                     if not k.startswith(mp_required_prefix)
                 ]
                 self.get_security_options().kex = pkex
+                # re-read the list so we don't advertise what we just
+                # removed (and will refuse to agree on in _parse_kex_init)
+                kex_algos = list(self.preferred_kex)
             available_server_keys = list(
                 filter(
                     list(self.server_key_dict.keys()).__contains__,
